@@ -34,6 +34,7 @@ import HSModel.Proofs.LockLemmas
 import HSModel.Proofs.Shape
 import HSModel.Proofs.SerialSpec
 import HSModel.Proofs.SerialTest
+import HSModel.Proofs.StoreSpec
 namespace HS.C07
 
 /-- a thread running alone from any of its scheduling points computes the
@@ -237,6 +238,89 @@ theorem accepted_store_is_the_whole_call (p : Str) (q : Prog (Except Exc Val)) (
     (hs : TestShape p (.error .storeObjectInProgress) Post0 q k k2) (w : World) (hfree : p ∉ w.lk.objPid) :
     q.run w = (k (.bool false)).run w :=
   run_tested_free p _ Post0 q k k2 hs w hfree
+
+open Classical in
+/-- **Stores of one pid are linearizable up to the documented refusal** (against the
+    specification). Started on a directory that simulates `a`, nothing claimed, no
+    fault plan: when all calls have returned, each call was either refused as
+    "already in progress" or belongs to an order in which `Abs.step`, run call after
+    call from `a`, returns exactly what those calls returned; the final directory
+    simulates the specification's final state and nothing is left claimed. -/
+theorem stores_of_one_pid_linearizable_up_to_refusal (cfg : Config) (o : Oracle) (p : Str) (calls : List Call) (hc : ∀ x ∈ calls, StoresPid p x)
+    (st : Store) (log : List Eff) (a : Abs) (hs : Sim o st a) (ho : GoodOracle o) (fuel : Nat) (sched : List Nat) :
+    let fin := (runSchedule fuel { w := calm st log, ts := (calls.map (Call.tprog cfg o)).map .fresh } sched 0).1
+    fin.allFinished = true →
+    ∃ (order : List Nat) (refused : Nat → Prop), order.Nodup ∧
+      (∀ j, j ∈ order ↔ j < calls.length ∧ ¬ refused j) ∧
+      Sim o fin.w.st (specHist cfg o (pick calls order) a).2 ∧ fin.w.lk = {} ∧
+      ∀ (j : Nat) (t : TState), fin.ts[j]? = some t → ∃ v, t = TState.finished v ∧
+        ((refused j ∧ v = .error .storeObjectInProgress) ∨ (j, v) ∈ order.zip (specHist cfg o (pick calls order) a).1) := by
+  intro fin hall
+  let progs0 := calls.map (Call.tprog cfg o)
+  let refusal : Except Exc Val := .error .storeObjectInProgress
+  have hb : ∀ q ∈ progs0, q.Tested p refusal Post0 := by
+    intro q hq
+    obtain ⟨x, hx, rfl⟩ := List.mem_map.mp hq
+    exact storesPid_tested cfg o p x (hc x hx)
+  have h0 : (calm st log).cnt .objPid p = 0 := by unfold World.cnt calm calmL; rfl
+  obtain ⟨progs', order0, hlen, hshape, hnd, hall0, hw, hres⟩ :=
+    tested_schedule p refusal Post0 progs0 (calm st log) hb h0 fuel sched hall
+  let refused : Nat → Prop := fun j => ∃ q k k2, progs0[j]? = some q ∧ TestShape p refusal Post0 q k k2 ∧
+    progs'[j]? = some (.ret refusal)
+  have hlen0 : progs0.length = calls.length := List.length_map _
+  have hsh : ∀ (j : Nat) (x : Call), calls[j]? = some x →
+      (refused j ∧ progs'[j]? = some (.ret (.error .storeObjectInProgress))) ∨
+      (¬ refused j ∧ ∀ w : World, w.lk = {} → ∃ q, progs'[j]? = some q ∧ q.run w = (Call.tprog cfg o x).run w) := by
+    intro j x hx
+    have hq0 : progs0[j]? = some (Call.tprog cfg o x) := by
+      show (calls.map (Call.tprog cfg o))[j]? = _
+      rw [List.getElem?_map, hx]; rfl
+    rcases hshape j _ hq0 with h1 | ⟨k, k2, hts, h1 | h1⟩
+    · right
+      refine ⟨?_, fun w _ => ⟨_, h1, rfl⟩⟩
+      rintro ⟨q, k, k2, hq, hts, hp'⟩
+      rw [hq0] at hq
+      have e1 := Option.some.inj hq
+      rw [h1] at hp'
+      have e2 := Option.some.inj hp'
+      rw [← e1] at hts
+      rw [hts.1] at e2
+      cases e2
+    · exact Or.inl ⟨⟨_, k, k2, hq0, hts, h1⟩, h1⟩
+    · right
+      refine ⟨?_, fun w hwl => ⟨_, h1, ?_⟩⟩
+      · rintro ⟨q, k', k2', hq, hts', hp'⟩
+        rw [h1] at hp'
+        have e := Option.some.inj hp'
+        rw [hts.2.2.1] at e
+        cases e
+      · have hfree : p ∉ w.lk.objPid := by rw [hwl]; intro h; cases h
+        exact (run_tested_free p refusal Post0 _ k k2 hts w hfree).symm
+  have hl : ∀ j ∈ order0, j < calls.length := fun j hj => hlen0 ▸ (hall0 j).mp hj
+  obtain ⟨f1, f2, f3⟩ := foldl_progs'_runHist cfg o p calls progs' refused hsh order0 hl (calm st log) rfl []
+  let order := order0.filter (fun j => decide (¬ refused j))
+  have hplain : ∀ x ∈ pick calls order, CidArgPlain x := by
+    intro x hx
+    simp only [pick, List.mem_filterMap] at hx
+    obtain ⟨j, _, hj⟩ := hx
+    have := hc x (List.mem_of_getElem? hj)
+    cases x <;> first | trivial | exact this.elim
+  obtain ⟨g1, g2, g3, _⟩ := refines_history_from cfg o (pick calls order) (calm st log) a rfl rfl hs ho hplain
+  have hwfin : fin.w = (runHist cfg o (pick calls order) (calm st log)).2 := by
+    rw [hw]; exact f1
+  refine ⟨order, refused, hnd.sublist List.filter_sublist, ?_, ?_, ?_, ?_⟩
+  · intro j
+    simp only [order, List.mem_filter, decide_eq_true_eq]
+    rw [hall0 j, hlen0]
+  · rw [hwfin]; exact g2
+  · rw [hwfin]; exact g3
+  · intro j t ht
+    obtain ⟨v, hv, hmem⟩ := hres j t ht
+    refine ⟨v, hv, ?_⟩
+    rcases f3 (j, v) hmem with h | h | h
+    · cases h
+    · exact Or.inl h
+    · right; rw [← g1]; exact h
 
 /-! the hypotheses are satisfiable: two deletes of a bound pid and one rejected
     call, an interleaved schedule after which all have returned — one delete
